@@ -12,7 +12,7 @@ use std::hash::{Hash, Hasher};
 
 const OPS: &[&str] = &[
   "append", "split_off", "drain_vec", "clone", "compare", "spare", "split_spare", "raw_parts",
-  "raw_part", "leak", "clone_from", "views",
+  "raw_part", "leak", "clone_from", "views", "fill_spare", "fill_split_spare",
 ];
 
 fn ord(o: Option<Ordering>) -> &'static str {
@@ -110,6 +110,46 @@ impl<T: El> Interp<T> {
           }
         }
         Out::Text(format!("{} {} {} {}", got.0, ord(got.1), ord(Some(got.2)), got.3))
+      }
+      "fill_spare" | "fill_split_spare" => {
+        // the documented use of the spare capacity: write up to k new elements through the slice the API hands out,
+        // then set_len
+        argc(4)?;
+        let (k, val) = (script::num(t[2])?, script::val(t[3])?);
+        if k > 4096 {
+          return None;
+        }
+        self.room(k)?;
+        let split = op == "fill_split_spare";
+        let res = scoped(|| {
+          let len = v.len();
+          let n = if split {
+            let (_init, sp) = v.split_at_spare_mut();
+            let n = k.min(sp.len());
+            for i in 0..n {
+              sp[i].write(T::new(val + i as i64));
+            }
+            n
+          } else {
+            let sp = v.spare_capacity_mut();
+            let n = k.min(sp.len());
+            for i in 0..n {
+              sp[i].write(T::new(val + i as i64));
+            }
+            n
+          };
+          if n > 0 {
+            unsafe { v.set_len(len + n) };
+          }
+          n
+        });
+        match res {
+          Some(n) => {
+            tl!("= {}", n);
+            Out::Nums(vec![n as u64])
+          }
+          None => done(None),
+        }
       }
       "views" => {
         // every borrowed view of the vector must be exactly the slice [as_ptr(), len()); sub-ranges and single
